@@ -8,6 +8,11 @@ CHECKS = {
    technique="exhaustive input enumeration (bounded): all root kinds x (len,cap) x view trees x fill sequences, executed on the real compio-buf code, pointer-arithmetic oracle",
    text="Every root buffer kind with every len<=cap<=bound, every nesting of slice(a..)/slice(a..e)/uninit() up to depth 3 with all in-range parameters, flatten(), vectored containers with slice/slice_mut/owned_iter, and every fill sequence (write k bytes, advance_to/advance/advance_vec_to) up to the stated length is executed on the real code and checked against pointer arithmetic on the root allocation. Exhaustive within the bounds; not a proof for larger sizes (the code has no size-dependent branches beyond 0/1/many).",
    note="Trusted: root types' native accessors (Vec::len/capacity/as_ptr ...), the harness model (~40 lines). Bounds: capacities <= 3 (quick) / 5 (thorough), view depth 3, fills <= 2/3. BufferRef (pool buffer) root is covered under C07's engine, not here."),
+
+ "C11": dict(engine="e2pure", design="§2/C11",
+   technique="deviation-bounded exhaustive exploration of scripted environment answers (short read/write, Interrupted, error, EOF) x exhaustive small inputs, on the real compio-io helpers, reference-model oracle",
+   text="Each helper (read_exact, read_to_end/string, append, read_vectored_exact, *_at, write_all, write_vectored_all, *_at, copy_with_size, Take, split halves, BufReader and BufWriter caller programs) runs on the real code against a scripted source/sink; every placement of <= 2 (quick) / 3 (thorough) deviations from 'transfer everything now' is enumerated, crossed with all small payloads, capacities (incl. 0, 1), destination shapes and positions; in-memory readers/writers/cursors are enumerated over all positions (incl. beyond the end) and shapes. The oracle is a straight-line reference computed from the environment's answer list.",
+   note="Trusted: the scripted reader/writer (env.rs) and the reference walk (ref_exact). Bounds: payloads <= 7 bytes, capacities {0,1,2,3,5}, deviations <= 2/3, BufReader/BufWriter caller programs of <= 2-4 operations. Known findings: Uninit view in read_exact, BufReader capacity 0."),
 }
 
 NOT_YET = {
